@@ -18,7 +18,7 @@ import (
 )
 
 func cases(tier string, seed int64) []fw.Case {
-	n, steps := 10, 110
+	n, steps := 32, 130
 	if tier == "thorough" {
 		n, steps = 48, 420
 	}
